@@ -13,9 +13,9 @@ def run(fw):
             jobs += [(r, []), (r, ['FOURARG'])]
         else:
             jobs.append((r, []))
-    fw.assumptions += ['inductive-step style: one call from a concrete micro-world (2 children per container); names over two letters, index classes {0,1,2,SIZE_MAX,2^40}, prepared entity choices are symbolic',
+    fw.assumptions += ['inductive-step style: one call (three scenarios: two or three consecutive calls) from a concrete micro-world (2 children per container); names over two letters, index classes {0,1,2,SIZE_MAX,2^40}, prepared entity choices are symbolic',
                        'no-destroy mode of the shared_ptr model: object lifetime (use after release of an owner) is outside this check',
-                       'outside: histories longer than one call, containers with more than 2 children, services taking entities (annotator, importer, analyser, analyser model)']
+                       'outside: longer histories, containers with more than 2 children, services taking entities (annotator, importer, analyser, analyser model)']
     fw.known_finding_lines()
     kle = fw.kf_listed('C09-lookalike-in-earlier-subtree')
     wit = {'s_remove_component_pointer', 's_replace_component', 's_add_component_hierarchy', 's_units_index', 's_equivalence_arguments'}
